@@ -22,10 +22,14 @@ vh::Outcome run_barrier(const vh::Case& c) {
     bool lap = false, dropped = false;
     out.res = vrt::run(c.sched, [&] {
         gc::Barrier bar((size_t)N);
+        // publication: what a participant wrote before its g-th arrival is visible to everyone released from generation g
+        std::vector<std::unique_ptr<Tracked>> datum;
+        for (int i = 0; i < N * G; ++i) datum.emplace_back(new Tracked(uint64_t(0)));
         for (int p = 0; p < N; ++p) {
             vrt::spawn([&, p] {
                 for (int g = 0; g < G && g <= drop[(size_t)p]; ++g) {
                     for (int s = 0; s < pause[(size_t)p][(size_t)g]; ++s) vrt::step();
+                    datum[(size_t)(p * G + g)]->set(uint64_t(100 + g));
                     arrivals[(size_t)g]++;
                     if (g > 0 && left[(size_t)g - 1] < expected[(size_t)g - 1]) lap = true;   // entered g while someone is still inside g-1
                     if (g == drop[(size_t)p]) { dropped = true; bar.wait_and_drop(); } else bar.wait();
@@ -33,6 +37,8 @@ vh::Outcome run_barrier(const vh::Case& c) {
                         vrt::fail("early-release", "participant " + std::to_string(p) + " returned from generation " + std::to_string(g) + " after " +
                                                        std::to_string(arrivals[(size_t)g]) + " of " + std::to_string(expected[(size_t)g]) + " arrivals");
                     left[(size_t)g]++;
+                    for (int q = 0; q < N; ++q) if (drop[(size_t)q] >= g && datum[(size_t)(q * G + g)]->read() != uint64_t(100 + g))
+                        vrt::fail("publication", "data written before arriving at the barrier is not visible after the barrier released");
                 }
             });
         }
@@ -60,9 +66,17 @@ vh::Outcome run_latch(const vh::Case& c) {
     int started = 0, finished = 0;
     int waits_in_flight = 0, arrives_in_flight = 0;
     bool overlap = false, waited = false;
+    int total_arrivals = extra; for (auto& f : c.fibers) for (auto& op : f) if (op.code % 3 != 1) total_arrivals++;
+    bool exact = total_arrivals == count;     // then every arrival precedes every return from wait(): its data must be visible
     out.res = vrt::run(c.sched, [&] {
         gc::Latch latch(count);
+        std::vector<std::unique_ptr<Tracked>> datum;
+        for (int i = 0; i < total_arrivals + 1; ++i) datum.emplace_back(new Tracked(uint64_t(0)));
+        int next_pub = 0;
+        auto publish = [&] { int idx = next_pub++; datum[(size_t)idx]->set(uint64_t(7)); };   // index taken before the (preemptible) write
+        auto consume = [&] { if (exact) for (int i = 0; i < count; ++i) if (datum[(size_t)i]->read() != uint64_t(7)) vrt::fail("publication", "data written before arrive() is not visible after wait() returned"); };
         auto do_arrive = [&] {
+            publish();
             started++; arrives_in_flight++;
             if (waits_in_flight > 0) overlap = true;
             latch.arrive();
@@ -76,6 +90,7 @@ vh::Outcome run_latch(const vh::Case& c) {
             if (vrt::me().blocking_ops != b0) waited = true;
             waits_in_flight--;
             if (started < count) vrt::fail("early-open", "wait() returned after only " + std::to_string(started) + " of " + std::to_string(count) + " arrivals had started");
+            consume();
         };
         for (size_t i = 0; i < c.fibers.size(); ++i) {
             if (c.fibers[i].empty()) continue;
@@ -86,10 +101,12 @@ vh::Outcome run_latch(const vh::Case& c) {
                         case 0: do_arrive(); break;
                         case 1: do_wait(); break;
                         default: {
+                            publish();
                             started++; arrives_in_flight++; waits_in_flight++;
                             latch.arrive_and_wait();
                             arrives_in_flight--; waits_in_flight--; finished++;
                             if (started < count) vrt::fail("early-open", "arrive_and_wait() returned before the count was reached");
+                            consume();
                         }
                     }
                 }
@@ -133,19 +150,24 @@ vh::Outcome run_trigger(const vh::Case& c) {
     bool ctl_in_flight = false, t_known = true;
     long n_activate_called = 0, n_trigger_called = 0, n_reset_called = 0;
     bool lbl_blocked_wait = false, lbl_timeout = false, lbl_wait_released = false;
+    std::vector<long> trig_ret(ctl.size(), -1);      // step at which the i-th controller op (a successful trigger) returned
     out.res = vrt::run(c.sched, [&] {
         gc::TriggerVariable tv(init_active);
+        std::vector<std::unique_ptr<Tracked>> datum;
+        for (size_t i = 0; i < ctl.size(); ++i) datum.emplace_back(new Tracked(uint64_t(0)));
         // controller
         vrt::spawn([&] {
             for (size_t i = 0; i < ctl.size(); ++i) {
                 for (int s = 0; s < c.fibers[0][i].b % 3; ++s) vrt::step();
                 int k = ctl[i];
+                if (k == K_TRIGGER && cur.A) datum[i]->set(uint64_t(55));     // published by the trigger
                 ctl_in_flight = true;
                 if (k == K_ACTIVATE) n_activate_called++; else if (k == K_TRIGGER) n_trigger_called++; else n_reset_called++;
                 bool exp = apply(cur, k);       // model is updated at call time; waiters abstain while a call is in flight
                 bool got = true;
                 if (k == K_ACTIVATE) got = tv.activate(); else if (k == K_TRIGGER) got = tv.trigger(); else tv.reset();
                 ctl_in_flight = false;
+                if (k == K_TRIGGER && exp) trig_ret[i] = vrt::now_step();
                 if (k != K_RESET && got != exp) vrt::fail("controller-result", std::string(k == K_ACTIVATE ? "activate" : "trigger") + "() returned " + (got ? "true" : "false") + ", model says " + (exp ? "true" : "false"));
                 if (tv.isActive() != cur.A) vrt::fail("controller-state", "isActive() disagrees with the model after a controller call");
                 // after reset() the property only promises "inactive" (and that blocked waiters were released): the value of
@@ -165,8 +187,11 @@ vh::Outcome run_trigger(const vh::Case& c) {
                     TvModel s0 = cur; bool stable = !ctl_in_flight;
                     long a0 = n_activate_called, t0 = n_trigger_called, r0 = n_reset_called;
                     long b0 = vrt::me().blocking_ops;
+                    long wait_call = vrt::now_step();
                     if (kind == 0 || kind == 1) {
                         bool r = kind == 0 ? tv.wait() : tv.wait_for(std::chrono::milliseconds(20));
+                        if (r) for (size_t ti = 0; ti < trig_ret.size(); ++ti) if (trig_ret[ti] >= 0 && trig_ret[ti] < wait_call && datum[ti]->read() != uint64_t(55))
+                            vrt::fail("publication", "data written before trigger() is not visible to a wait() that began after the trigger returned");
                         bool blocked = vrt::me().blocking_ops != b0;
                         if (blocked) lbl_blocked_wait = true;
                         if (r) {
